@@ -31,7 +31,7 @@ pub fn def() -> CheckDef {
         runs_quick: 40_000,
         runs_thorough: 800_000,
         rule: "corruption faults on the channel between an encrypting and a decrypting party: for every sampled (mode, block size, cipher, IV, message <= 20 blocks, decrypting schedule, width policy, difference delta) ALL corruption positions j are enumerated; twin decryptions (clean vs corrupted) must differ in exactly the support the definition prescribes; prefix decryption for 'no dependence on later input'; identical cipher-input sequences for keystream modes. evaluations = scenarios; corruption positions are counted in reach_probes.corruptions. distinct = distinct (mode, block size, cipher, policy, schedule, delta kind, length); non-trivial = message of >= 2 blocks",
-        required_probes: &["corruptions", "cbc", "cfb", "cfb8", "pcbc", "ige", "stream", "cfb_partial_tail", "later_blocks_changed", "prefix_checked", "keystream_independent_of_data"],
+        required_probes: &["corruptions", "cbc", "cfb", "cfb8", "pcbc", "ige", "stream", "cfb_partial_tail", "cfb_buffered", "later_blocks_changed", "prefix_checked", "keystream_independent_of_data"],
         r#gen,
         exec,
         components: "real code on both parties (cbc, pcbc, ige, cfb-mode, cfb8, ofb, ctr, belt-ctr and cipher's front ends); channel: harness byte buffer with injected bit/byte differences; stub: block cipher (a true bijection, self-tested) in most runs, real ciphers in the rest; no reference model",
@@ -54,8 +54,12 @@ fn r#gen(rng: &mut Rng, _thorough: bool) -> Scn {
         if base == "cfb" && rng.chance(1, 2) {
             s.set_num("tail", rng.below(bs) as u128);
         }
+        let buf = base == "cfb" && rng.chance(2, 5);
+        s.set_num("buf", buf as u128);
         for _ in 0..1 + rng.usize(4) {
-            s.ops.push(gen_data_op(rng, FAM_BLOCK, &s.mode, s.bs, s.pol[1].max_width() as u64).who(1));
+            // the buffered decryptor is driven with byte-sized pieces, the block-level one with blocks
+            let fam_ops = if buf { FAM_BUF } else { FAM_BLOCK };
+            s.ops.push(gen_data_op(rng, fam_ops, &s.mode, s.bs, s.pol[1].max_width() as u64).who(1));
         }
     } else {
         let mode = *rng.pick(&crate::factory::STREAM_MODES);
@@ -122,9 +126,20 @@ fn exec(scn: &Scn, ctx: &mut Ctx) -> Verdict {
             invalid!("len");
         }
         let msg = scn.bytes(0, len * g + tail);
+        let buf = base == "cfb" && scn.num("buf") == 1;
+        ctx.probe_if(buf, "cfb_buffered");
         // party A: honest ciphertext (real code)
         let mut c = vec![0u8; msg.len()];
-        if tail > 0 {
+        if buf {
+            let mut e = match Inst::make(FAM_BUF, "cfb.bufenc", bs, scn.cipher, &scn.key, &scn.iv, 0, 0) {
+                Ok(i) => i,
+                Err(_) => invalid!("buffered"),
+            };
+            c = match e.feed(&msg, &[], 0, scn, 0) {
+                Ok(o) => o,
+                Err(e) => violation!("apply_err", "{}", e),
+            };
+        } else if tail > 0 {
             if enc.finish(3, 0, &msg, &mut c) != Ok(msg.len()) {
                 violation!("length", "one-shot encryption failed");
             }
@@ -132,6 +147,10 @@ fn exec(scn: &Scn, ctx: &mut Ctx) -> Verdict {
             enc.proc(crate::obj::VIA_BLOCKS, 0, &msg, &mut c);
         }
         let dec = |data: &[u8], ctx: &mut Ctx| -> Result<Vec<u8>, Verdict> {
+            if buf {
+                let mut d = Inst::make(FAM_BUF, "cfb.bufdec", bs, scn.cipher, &scn.key, &scn.iv, 1, 0).map_err(|_| Verdict::Invalid("buffered".into()))?;
+                return d.feed(data, &scn.ops, 1, scn, 1).map_err(|e| Verdict::Violation { clause: "apply_err".into(), detail: e });
+            }
             let mut d = match make_block(&scn.mode, bs, scn.cipher, &scn.key, &scn.iv, 1, 0) {
                 Ok(o) => o,
                 Err(_) => return Err(Verdict::Invalid("dec".into())),
